@@ -140,7 +140,7 @@ func init() {
 	})
 
 	// ------------------------------------------------------------------ C16.R3
-	register("C16", "R3", "K2+K6", "nonce discipline: every Seal/Open is followed by incrementing the same direction's nonce before any further use or exit; under the direction's mutex; counter is 64-bit and panics at wrap-around", 11, func(c *Ctx) {
+	register("C16", "R3", "K2+K6", "nonce discipline: every Seal/Open is followed by incrementing the same direction's nonce before any further use or exit; under the direction's mutex; counter is 64-bit and panics at wrap-around; the nonce of a connection is set once, when it is built", 15, func(c *Ctx) {
 		w := c.W
 		type dir struct{ name, aead, op, nonce, mtx, fn string }
 		for _, d := range []dir{
@@ -204,6 +204,24 @@ func init() {
 				}
 			}
 			c.Check(n == 1, "p2p/conn."+d.fn+" :: single "+d.op+" site", w.pos(top.Pos()), "one", fmt.Sprintf("%d %s sites", n, d.op))
+		}
+		// A direction's nonce starts at zero when the connection value is built and from then on only counts
+		// up: a second assignment (e.g. "fresh counters for the application stream" after the handshake frame
+		// was sealed and opened with nonce 0) makes a (key, nonce) pair occur twice — the recorded handshake
+		// frame then decrypts as the first data frame, and the XOR of the two frames leaks their plaintexts.
+		// Ownership: in package p2p/conn the nonce fields are stored only into a connection that is being
+		// built (a fresh struct literal), once each, with a fresh zero array.
+		for _, field := range []string{"recvNonce", "sendNonce"} {
+			n := 0
+			for _, f := range w.FuncsInPkg("p2p/conn") {
+				for _, fs := range w.fieldStoresInRaw(f, "p2p/conn", "SecretConnection", field) {
+					n++
+					_, fresh := stripConv(fs.Addr.X).(*ssa.Alloc)
+					_, zero := stripConv(fs.Store.Val).(*ssa.Alloc)
+					c.Check(fresh && zero, fmt.Sprintf("%s :: store to %s #%d", funcKey(f), field, n), w.ipos(fs.Store), "only into the connection being built, a fresh zero array", "the "+field+" of an existing connection is replaced ("+w.expr(fs.Store.Val)+"): the counter restarts and a nonce is used twice with the same key")
+				}
+			}
+			c.Check(n == 1, "p2p/conn.SecretConnection."+field+" :: set once", "-", "1 store", fmt.Sprintf("%d stores", n))
 		}
 		if f := c.fn("p2p/conn", "incrNonce"); f != nil {
 			fk := funcKey(f)
